@@ -66,6 +66,16 @@ def extra_collections(outdir=None):
                 "pq_filtered": lambda: (lambda r: r[r.x > 10])(dx.read_parquet(pq, calculate_divisions=True)),
             }
         )
+        # the dataset opened through a path RELATIVE to the sender's working directory, as in a notebook or script
+        # (read_parquet("data")); the receiving interpreters of the second hash seed run in another directory
+        rel = os.path.relpath(pq)
+        out.update(
+            {
+                "pq_relative_path": lambda: dx.read_parquet(rel, calculate_divisions=True),
+                "pq_relative_path_y_sum": lambda: dx.read_parquet(rel).y.sum(),
+                "pq_relative_path_filtered_x": lambda: (lambda r: r[r.x > 10][["x"]])(dx.read_parquet(rel)),
+            }
+        )
     return out
 
 
@@ -213,9 +223,14 @@ def run(run):
                 env["PYTHONHASHSEED"] = hs
             rep = {}
             failed = False
+            # the working directory is state of the originating process as well: every receiver but the first one's runs elsewhere
+            elsewhere = None
+            if hs != "0":
+                elsewhere = os.path.join(tmp, "receiver_cwd")
+                os.makedirs(elsewhere, exist_ok=True)
             for form in ("logical", "optimized", "optimized-nofuse", "lowered"):
                 code = "import sys, warnings; warnings.filterwarnings('ignore'); sys.path.insert(0, %r); sys.path.append(%r)\nfrom vf.props import C16\nC16.receiver(%r, %r)\n" % (VERIF, os.path.join(VERIF, ".overlay"), tmp, form)
-                r = subprocess.run([sys.executable, "-W", "ignore", "-c", code], capture_output=True, text=True, env=env, timeout=3000)
+                r = subprocess.run([sys.executable, "-W", "ignore", "-c", code], capture_output=True, text=True, env=env, timeout=3000, cwd=elsewhere)
                 part = None
                 for line in r.stdout.splitlines():
                     if line.startswith("@@"):
@@ -233,8 +248,8 @@ def run(run):
                         run.violation("C16.pickle:cannot-be-pickled", ident, rec["sender_error"], {"kind": "none"})
                     continue
                 got = rep.get(ident, {})
-                run.count("C16.roundtrip:name-schema-divisions-result", 1, f"{ident}|{hs}", rule="corpus collections x {logical, optimized, optimized-nofuse, lowered} x fresh interpreters (PYTHONHASHSEED 0 / 4242 ...)")
-                sig = f"{ident}|PYTHONHASHSEED={hs}"
+                run.count("C16.roundtrip:name-schema-divisions-result", 1, f"{ident}|{hs}", rule="corpus collections x {logical, optimized, optimized-nofuse, lowered} x fresh interpreters (PYTHONHASHSEED 0 / 4242 ...; all but the first in another working directory)")
+                sig = f"{ident}|PYTHONHASHSEED={hs}" + ("|receiver in another working directory" if elsewhere else "")
                 if "load_error" in got:
                     run.violation("C16.roundtrip:load-fails", sig, got["load_error"], {"kind": "none"})
                     continue
